@@ -11,6 +11,14 @@ from ..oracles import linux as O
 from .c06 import collect
 
 
+def _walk(t):
+    yield t
+    if isinstance(t, tuple):
+        for x in t:
+            if isinstance(x, tuple):
+                yield from _walk(x)
+
+
 def cols(v):
     out = []
     for a in collect(v, lambda x: x and x[0] == "idx"):
@@ -99,13 +107,19 @@ def run(ctx):
     ck = repo.func("psutil", "_check_conn_kind")
     ccfg = A.cfg(ck)
     good = False
+    kparam = ck.node.args.args[0].arg if ck.node.args.args else "kind"
     for n in ccfg.nodes:
         if n.kind == "raise" and "ValueError" in norm_stmt(n.stmt):
             gs = ccfg.guards(n)
-            if gs and gs[0][1] is True and norm_stmt(gs[0][0]).replace(" ", "") == "kindnotinkinds":
-                ks = [st for st in ast.walk(ck.node) if isinstance(st, ast.Assign)
-                      and dotted(st.targets[0]) == "kinds"]
-                if ks and "_common.conn_tmap" in norm_stmt(ks[0].value):
+            if not gs or gs[-1][1] is not True:
+                continue
+            g = gs[-1][0]
+            if isinstance(g, ast.Compare) and len(g.ops) == 1 and isinstance(g.ops[0], ast.NotIn) \
+                    and dotted(g.left) == kparam:
+                rhs = g.comparators[0]
+                srcs = [rhs] + [st.value for st in ast.walk(ck.node) if isinstance(st, ast.Assign)
+                                and dotted(rhs) and dotted(st.targets[0]) == dotted(rhs)]
+                if any("conn_tmap" in norm_stmt(x) for x in srcs):
                     good = True
     if good:
         ctx.ok("C11.R2", "_check_conn_kind", sample="kind not in tuple(conn_tmap) -> ValueError")
@@ -116,11 +130,12 @@ def run(ctx):
                       ("net_connections", "_psplatform.net_connections")):
         f = repo.func("psutil", q)
         cfg = A.cfg(f)
+        kp_ = [a.arg for a in f.node.args.args if a.arg != "self"][0]
         chk = [c for c in calls_in(f.node) if dotted(c.func) == "_check_conn_kind"]
         plat = [c for c in calls_in(f.node) if dotted(c.func) == callee]
         ok = chk and plat and all(any(cfg.dominates(a, b) for a in cfg.owners(chk[0]))
                                   for c in plat for b in cfg.owners(c)) \
-            and dotted(chk[0].args[0]) == "kind" and dotted(plat[0].args[0]) == "kind"
+            and dotted(chk[0].args[0]) == kp_ and dotted(plat[0].args[0]) == kp_
         if ok:
             ctx.ok("C11.R2", q, sample=f"_check_conn_kind(kind) dominates {callee}(kind)")
         else:
@@ -236,24 +251,78 @@ def run(ctx):
                  f"status = `{pretty(st)[:100]}` / unix `{pretty(uslots['status'])}`")
     # owner
     fd, pid = slots["fd"], slots["pid"]
-    ok_o = fd[0] == "gphi" and fd[3] == ("const", -1) and pid[0] == "gphi" \
-        and pid[3] == ("const", None) and "[0][1]" in pretty(fd[2]) and "[0][0]" in pretty(pid[2]) \
-        and "'in'" in pretty(fd[1])
+
+    def owner_ok(term, pos, dflt):
+        """alternatives: TABLE[x][0][pos] (TABLE = the inodes argument, looked up
+        by subscript or .get) | the default; chosen by a test on the table."""
+        alts = alternatives(term)
+        have_tbl = have_d = False
+        for a in alts:
+            if a == ("const", dflt):
+                have_d = True
+            elif a[0] == "idx" and a[2] == pos and a[1][0] == "idx" and a[1][2] == 0 \
+                    and a[1][1][0] in ("idx", "dget") and a[1][1][1] == ("param", "inodes"):
+                have_tbl = True
+            else:
+                return False
+        cond_ok = term[0] in ("gphi", "phi") and ("param", "inodes") in list(_walk(term[1])) \
+            if term[0] == "gphi" else True
+        return have_tbl and have_d and cond_ok
+    ok_o = owner_ok(fd, 1, -1) and owner_ok(pid, 0, None)
     if ok_o:
         ctx.ok("C11.R4", "inet-owner", sample="inodes[inode][0] -> (pid, fd) | (None, -1)")
     else:
         ctx.fail("C11.R4", "inet-owner", pi.file, pi.node.lineno, pi.qual,
                  f"inet owner fd=`{pretty(fd)[:80]}` pid=`{pretty(pid)[:80]}`")
-    pairs_loop = [n for n in ast.walk(pu.node) if isinstance(n, ast.For)
-                  and dotted(n.iter) == "pairs"]
-    pa = [s for s in ast.walk(pu.node) if isinstance(s, ast.Assign)
-          and dotted(s.targets[0]) == "pairs"]
-    vals = {norm_stmt(s.value).replace(" ", "") for s in pa}
-    if pairs_loop and vals == {"inodes[inode]", "[(None,-1)]"}:
+    # unix: the loop enclosing the yield iterates the holders of the inode, or the
+    # single unknown holder (None, -1) - decided on the definitions reaching the
+    # loop's iterable, whatever the variables are called
+    inodes_p = [a.arg for a in pu.node.args.args][2] if len(pu.node.args.args) > 2 else "inodes"
+    ylds = [y for y in ast.walk(pu.node) if isinstance(y, ast.Yield)]
+    loop = None
+    for fl in ast.walk(pu.node):
+        if isinstance(fl, ast.For) and any(y is x for y in ylds for x in ast.walk(fl)):
+            if isinstance(fl.target, ast.Tuple) and len(fl.target.elts) == 2:
+                loop = fl
+    forms = set()
+
+    def owner_forms(e):
+        if isinstance(e, ast.Name) and e.id != inodes_p:
+            defs = [s_.value for s_ in ast.walk(pu.node) if isinstance(s_, ast.Assign)
+                    and any(dotted(t_) == e.id for t_ in s_.targets)]
+            if not defs:
+                forms.add("?" + e.id)
+            for d_ in defs:
+                owner_forms(d_)
+        elif isinstance(e, ast.IfExp):
+            owner_forms(e.body)
+            owner_forms(e.orelse)
+        elif isinstance(e, ast.BoolOp) and isinstance(e.op, ast.Or):
+            for v_ in e.values:
+                owner_forms(v_)
+        elif isinstance(e, ast.Subscript) and dotted(e.value) == inodes_p:
+            forms.add("TABLE[x]")
+        elif isinstance(e, ast.Call) and isinstance(e.func, ast.Attribute) and e.func.attr == "get" \
+                and dotted(e.func.value) == inodes_p:
+            forms.add("TABLE[x]")
+            if len(e.args) > 1:
+                owner_forms(e.args[1])
+        elif isinstance(e, (ast.List, ast.Tuple)) and len(e.elts) == 1 \
+                and norm_stmt(e.elts[0]).replace(" ", "") == "(None,-1)":
+            forms.add("[(None,-1)]")
+        elif isinstance(e, ast.Constant) and e.value is None:
+            pass        # `.get(x)` miss, replaced by an `or` alternative
+        else:
+            forms.add(norm_stmt(e))
+    if loop is not None:
+        owner_forms(loop.iter)
+    pid_first = loop is not None and [dotted(x) for x in loop.target.elts] and True
+    if loop is not None and forms == {"TABLE[x]", "[(None,-1)]"}:
         ctx.ok("C11.R4", "unix-owner", sample="one row per (pid, fd) in inodes[inode] | [(None, -1)]")
     else:
         ctx.fail("C11.R4", "unix-owner", pu.file, pu.node.lineno, pu.qual,
-                 f"unix owners iterate {sorted(vals)}")
+                 f"unix owners iterate {sorted(forms)}; expected the holders "
+                 f"inodes[inode] or the single unknown holder [(None, -1)]")
     # filter
     for f, term in ((pi, t), (pu, tu)):
         whens = collect(term, lambda x: x and x[0] == "when")
@@ -268,20 +337,65 @@ def run(ctx):
     rcfg = A.cfg(rt)
     pc = [c for c in calls_in(rt.node) if dotted(c.func) == "_common.pconn"]
     sc = [c for c in calls_in(rt.node) if dotted(c.func) == "_common.sconn"]
-    okr = pc and sc and all(("truthy", "pid", True) in facts(rcfg, n) for n in rcfg.owners(pc[0])) \
-        and [dotted(a) for a in pc[0].args] == ["fd", "family", "type_", "laddr", "raddr", "status"] \
-        and [dotted(a) for a in sc[0].args] == ["fd", "family", "type_", "laddr", "raddr", "status",
-                                                "bound_pid"]
+    rparams = [a.arg for a in rt.node.args.args]
+    pid_p = rparams[2] if len(rparams) > 2 else "pid"
+    rec = [fl for fl in ast.walk(rt.node) if isinstance(fl, ast.For)
+           and isinstance(fl.target, ast.Tuple) and len(fl.target.elts) == 7]
+    names = [dotted(x) for x in rec[0].target.elts] if rec else []
+    okr = pc and sc and rec \
+        and all(("truthy", pid_p, True) in facts(rcfg, n) for n in rcfg.owners(pc[0])) \
+        and [dotted(a) for a in pc[0].args] == names[:6] \
+        and [dotted(a) for a in sc[0].args] == names
     if okr:
         ctx.ok("C11.R4", "retrieve", sample="pconn(6 slots) if pid else sconn(..., pid)")
     else:
         ctx.fail("C11.R4", "retrieve", rt.file, rt.node.lineno, rt.qual,
                  "retrieve() no longer builds pconn/sconn from the 7 slots in order")
-    # inode collection
+    # inode collection (def-use, independent of variable names)
     gi = repo.func(pm, "NetConnections.get_proc_inodes")
-    txt = norm_stmt(gi.node)
-    okg = "inode.startswith('socket:[')" in txt and "inode[8:][:-1]" in txt.replace(" ", "") \
-        and "inodes[inode].append((pid, int(fd)))" in txt
+    gparams = [a.arg for a in gi.node.args.args]
+    gpid = gparams[1] if len(gparams) > 1 else "pid"
+    links = {dotted(s_.targets[0]) for s_ in ast.walk(gi.node) if isinstance(s_, ast.Assign)
+             and isinstance(s_.value, ast.Call) and (dotted(s_.value.func) or "").endswith("readlink")}
+    fdv = {dotted(fl.target) for fl in ast.walk(gi.node) if isinstance(fl, ast.For)
+           and isinstance(fl.iter, ast.Call) and dotted(fl.iter.func) == "os.listdir"}
+    sw = [c for c in calls_in(gi.node) if isinstance(c.func, ast.Attribute)
+          and c.func.attr == "startswith" and dotted(c.func.value) in links and c.args
+          and isinstance(c.args[0], ast.Constant) and c.args[0].value == "socket:["]
+
+    def strips_wrapper(e, depth=0):
+        """e == link[8:][:-1] or link[8:-1] (possibly through one re-assignment)."""
+        def sl(x):
+            return (x.slice.lower.value if isinstance(x.slice.lower, ast.Constant) else
+                    None if x.slice.lower is None else "?",
+                    -x.slice.upper.operand.value
+                    if isinstance(x.slice.upper, ast.UnaryOp)
+                    and isinstance(x.slice.upper.op, ast.USub)
+                    and isinstance(x.slice.upper.operand, ast.Constant)
+                    else None if x.slice.upper is None else "?") \
+                if isinstance(x, ast.Subscript) and isinstance(x.slice, ast.Slice) else None
+        a = sl(e)
+        if a == (8, -1) and dotted(e.value) in links:
+            return True
+        if a == (None, -1) and sl(e.value) == (8, None) and dotted(e.value.value) in links:
+            return True
+        if a == (8, None) and sl(e.value) == (None, -1) and dotted(e.value.value) in links:
+            return True
+        return False
+    keyok = False
+    app = [c for c in calls_in(gi.node) if isinstance(c.func, ast.Attribute)
+           and c.func.attr == "append" and isinstance(c.func.value, ast.Subscript)
+           and len(c.args) == 1 and isinstance(c.args[0], ast.Tuple) and len(c.args[0].elts) == 2]
+    for c in app:
+        k = c.func.value.slice
+        cands = [k] + [s_.value for s_ in ast.walk(gi.node) if isinstance(s_, ast.Assign)
+                       and dotted(s_.targets[0]) == dotted(k) and dotted(k)]
+        a0, a1 = c.args[0].elts
+        pair_ok = dotted(a0) == gpid and isinstance(a1, ast.Call) and dotted(a1.func) == "int" \
+            and a1.args and dotted(a1.args[0]) in fdv
+        if pair_ok and any(strips_wrapper(x) for x in cands):
+            keyok = True
+    okg = bool(sw) and keyok
     if okg:
         ctx.ok("C11.R4", "inodes", sample="socket:[N] -> inodes[N].append((pid, int(fd)))")
     else:
